@@ -6,7 +6,7 @@ const MODELLED_RANGE: bool = true;
 const MODELLED_RPATH: bool = true;
 const MODELLED_FRANGE: bool = true;
 const MODELLED_INFO: bool = true;
-const MODELLED_CD: bool = false;
+const MODELLED_CD: bool = true;
 
 const EXTREMES: &[u64] = &[0, 1, 2, 9, 10, 15, 16, 125, 126, 127, 255, 256, 65535, 65536, 1 << 31, (1 << 31) + 1, 1 << 32, 1 << 63, (1 << 63) - 1, u64::MAX - 1, u64::MAX];
 const INJECT: &[&[u8]] = &[b"\r", b"\n", b"\r\n", b"\0", b"\xff", b"\xc3\xa9", b"\xe2\x82\xac", b"\xf0\x9f\x98\x80", b"\xc0\xaf", b"\xed\xa0\x80", b"%", b"%2", b"%zz", b"%00", b"%2F", b"%ff", b"\"", b"\\", b";", b",", b"=", b" ", b"\t", b"*", b"'", b"+", b"-", b":", b"[", b"]", b"{", b"}", b"/", b"//", b"..", b"?", b"#", b"&"];
